@@ -127,8 +127,9 @@ class SuperProxy:
 class IdxArr:
     """A static-shape integer index array (input `indices`, arange, setxor1d result, constant list)."""
 
-    def __init__(s, name, size, kind="generic", lo=None, values=None):
-        s.name, s.size, s.kind, s.lo, s.values = name, D(size), kind, lo, values
+    def __init__(s, name, size, kind="generic", lo=None, values=None, inverse=False, parts=None):
+        # kind: generic | arange | const | perm (permutation of a whole axis; inverse=True: its inverse) | compose (parts[0][parts[1]])
+        s.name, s.size, s.kind, s.lo, s.values, s.inverse, s.parts = name, D(size), kind, lo, values, inverse, parts
 
     def __repr__(s):
         return f"<idx {s.name}:{s.size}>"
